@@ -38,6 +38,33 @@ STAT_BITS = {'S_IRUSR': 0o400, 'S_IWUSR': 0o200, 'S_IXUSR': 0o100, 'S_IRGRP': 0o
              'S_IROTH': 0o004, 'S_IWOTH': 0o002, 'S_IXOTH': 0o001, 'S_IRWXU': 0o700, 'S_IRWXG': 0o070, 'S_IRWXO': 0o007}
 
 
+# Every call inside the scanned functions must be CLASSIFIED: either file-system relevant (FS_NAMES: then it has to be
+# recognised by the skeleton/gate translators) or on this list of callees known not to touch the output tree.  Anything
+# else (link, symlink, read_text, fchmod, sendfile, tempfile, a new helper, ...) makes the translator fail closed.
+HARMLESS = {'Path', 'PermissionError', 'IsADirectoryError', 'ValueError', '_generate_with_line_buffer', '_reset_line_pp', 'append',
+            'debug', 'info', 'warning', 'endswith', 'exists', 'is_dir', 'is_symlink', 'stat', 'file_pp', 'line_pp',
+            'filter_type_to_template', 'format', 'generate', 'get_support_module', 'get_support_output_folder',
+            'get_target_language', 'get_template', 'get_templates', 'isinstance', 'len', 'provider', 'reset', 'str', 'type',
+            'update_nunavut_globals', 'utcnow', 'with_suffix', 'write'}
+SCANNED = [(SRC_J, 'CodeGenerator', '_handle_overwrite'), (SRC_J, 'CodeGenerator', '_generate_code'),
+           (SRC_J, 'SupportGenerator', '_copy_header'), (SRC_J, 'SupportGenerator', '_copy_header_using_line_pps'),
+           (SRC_J, 'SupportGenerator', '_generate_header'), (SRC_J, 'DSDLCodeGenerator', '_generate_type'),
+           (SRC_J, 'SupportGenerator', 'generate_all'), (SRC_J, 'DSDLCodeGenerator', 'generate_all'),
+           (SRC_P, 'SetFileMode', '__call__')]
+
+
+def check_all_calls_classified(trees: dict) -> None:
+    for src, cls, name in SCANNED:
+        fn = find_function(trees[src], cls, name)
+        for n in ast.walk(fn):
+            if isinstance(n, ast.Call):
+                c = _callee(n)
+                if c not in FS_NAMES and c not in HARMLESS:
+                    raise Unsupported('unclassified call %r in %s.%s (neither file-system relevant nor known harmless)' % (c or ast.unparse(n.func)[:40], cls, name))
+            if isinstance(n, (ast.Import, ast.ImportFrom)) and not (isinstance(n, ast.ImportFrom) and n.module and n.module.endswith('_common')):
+                raise Unsupported('import inside %s.%s' % (cls, name))
+
+
 def _callee(c: ast.Call) -> str:
     f = c.func
     if isinstance(f, ast.Attribute):
@@ -178,6 +205,23 @@ def tr_setfilemode(tree: ast.Module) -> str:
     body = FsTr('generated', [], {'_file_mode': 'file_mode'}).block(fn.body[:-1], 's')
     return ('Definition SetFileMode_call (e : env) (s : fs) (file_mode : N) (generated : path) : (fs * result) * path :=\n'
             '  (%s, generated).' % body)
+
+
+def tr_external_program(tree: ast.Module) -> str:
+    """ExternalProgramEditInPlace.__call__: runs `command_line + [str(generated)]` (through sys.executable for a .py program)
+    and returns the same path.  What the program does to the file is a parameter of the model (PPExternal f)."""
+    fn = find_function(tree, 'ExternalProgramEditInPlace', '__call__')
+    body = [st for st in fn.body if not (isinstance(st, ast.Expr) and isinstance(st.value, ast.Constant))]
+    want = ("run_args = self._command_line + [str(generated)]\n"
+            "if len(run_args) > 0 and str(run_args[0]).endswith('.py'):\n"
+            "    run_args = [sys.executable] + run_args\n"
+            "subprocess_run(run_args, check=self._check)\n"
+            "return generated")
+    got = '\n'.join(ast.unparse(st) for st in body)
+    if got != want:
+        raise Unsupported('ExternalProgramEditInPlace.__call__ changed: %s' % got[:300])
+    return ('Definition ExternalProgram_call (e : env) (s : fs) (f : N -> N) (generated : path) : (fs * result) * path :=\n'
+            '  ((fs_edit e s (resolve e generated) f), generated).')
 
 
 # ---------------------------------------------------------------------------------------------
@@ -476,7 +520,8 @@ def gen_regen() -> typing.Tuple[bool, str]:
         jj = gen.parse_repo(SRC_J)
         pp = gen.parse_repo(SRC_P)
         rr = gen.parse_repo(SRC_R)
-        parts = [tr_handle_overwrite(jj), tr_setfilemode(pp)]
+        check_all_calls_classified({SRC_J: jj, SRC_P: pp})
+        parts = [tr_handle_overwrite(jj), tr_setfilemode(pp), tr_external_program(pp)]
         parts.append('Definition generate_code_skel : skel :=\n  %s.' % skel_of(
             jj, 'CodeGenerator', '_generate_code', 'output_path', ['self', 'output_path', 'template', 'template_gen', 'allow_overwrite']))
         parts.append('Definition copy_header_using_line_pps_skel : skel :=\n  %s.' % skel_of(
